@@ -314,25 +314,42 @@ bool population<T>::load(std::istream &in, const problem &prob)
   if (!(in >> n_layers) || !n_layers)
     return false;
 
-  population p(prob);
-  p.pop_.reserve(n_layers);
-  p.allowed_.reserve(n_layers);
+  // The layers are built in temporaries and committed only when the whole
+  // stream has been read.
+  decltype(pop_) pop;
+  decltype(allowed_) allowed;
 
   for (decltype(n_layers) l(0); l < n_layers; ++l)
   {
-    if (!(in >> p.allowed_[l]))
+    unsigned n_allowed(0);
+    if (!(in >> n_allowed))
       return false;
 
     unsigned n_elem(0);
     if (!(in >> n_elem))
       return false;
 
+    layer_t layer;
     for (decltype(n_elem) i(0); i < n_elem; ++i)
-      if (!p[{l, i}].load(in, prob.sset))
+    {
+      T ind;
+      if (!ind.load(in, prob.sset))
         return false;
+      layer.push_back(ind);
+    }
+
+    allowed.push_back(n_allowed);
+    pop.push_back(std::move(layer));
   }
 
-  *this = p;
+  // `is_valid` requires a capacity not lower than the number of individuals
+  // allowed (moving a vector keeps its capacity).
+  for (std::size_t l(0); l < pop.size(); ++l)
+    pop[l].reserve(std::max<std::size_t>(allowed[l], pop[l].size()));
+
+  prob_ = &prob;
+  pop_ = std::move(pop);
+  allowed_ = std::move(allowed);
   return true;
 }
 
